@@ -44,6 +44,9 @@ pub fn cv_to_cbor(cv: &CV) -> CBOR {
 /// so that the typed `From<T> for Envelope` paths are exercised, not just `CBOR`.
 pub fn make_leaf_env(cv: &CV, variant: u64) -> Envelope {
     match cv {
+        CV::U(n) if variant % 16 == 6 => Envelope::new_or_null(Some(*n)),
+        CV::U(n) if variant % 16 == 14 => Envelope::new_or_none(Some(*n)).unwrap_or_else(Envelope::null),
+        CV::S(22) if variant % 4 == 2 => Envelope::new_or_null(None::<u8>),
         CV::U(n) if variant % 2 == 0 => {
             if *n <= u8::MAX as u64 && variant % 4 == 0 {
                 Envelope::new(*n as u8)
@@ -309,7 +312,14 @@ pub fn elide_via(env: &Envelope, targets: &BTreeSet<D>, revealing: bool, action:
     let digests: Vec<Digest> = targets.iter().map(to_lib_digest).collect();
     let providers: Vec<&dyn DigestProvider> = digests.iter().map(|d| d as &dyn DigestProvider).collect();
     let plain = matches!(action, Obsc::Elided);
-    match entry % 6 {
+    match entry % 12 {
+        // the six generic entry points that take the mode as a flag
+        6 => env.elide_set_with_action(&set, revealing, &act),
+        7 => env.elide_array_with_action(&providers, revealing, &act),
+        8 if digests.len() == 1 => env.elide_target_with_action(&digests[0], revealing, &act),
+        9 if plain => env.elide_set(&set, revealing),
+        10 if plain => env.elide_array(&providers, revealing),
+        11 if plain && digests.len() == 1 => env.elide_target(&digests[0], revealing),
         1 => {
             if revealing {
                 env.elide_revealing_array_with_action(&providers, &act)
